@@ -38,6 +38,14 @@ def kwargs(case, prof, variant):
     kw = {}
     if variant.get('natural') and case['lay'] in ('same', 'compound', 'cswap'):
         pass   # no key arguments: natural join on the common fields
+    elif variant.get('indexkey'):
+        # the key given as field INDICES (index 0 is falsy); with 'sharednames' the natural key would be wider
+        li = [lay['lh'].index(f) for f in ([lay['lkey']] if not isinstance(lay['lkey'], tuple) else lay['lkey'])]
+        ri = [lay['rh'].index(f) for f in ([lay['rkey']] if not isinstance(lay['rkey'], tuple) else lay['rkey'])]
+        if li == ri:
+            kw['key'] = li[0] if len(li) == 1 else tuple(li)
+        else:
+            kw['lkey'], kw['rkey'] = (li[0] if len(li) == 1 else tuple(li)), (ri[0] if len(ri) == 1 else tuple(ri))
     elif lay['lkey'] == lay['rkey']:
         kw['key'] = lay['lkey']
     else:
@@ -57,6 +65,8 @@ def compare(case, prof, got, variant, ordered='key'):
     lay = LAYOUT[case['lay']]
     want_hdr = header(case, 'L_' if variant.get('prefix') and case['op'] != 'anti' else None,
                       'R_' if variant.get('prefix') and case['op'] != 'anti' else None)
+    if variant.get('sharednames'):
+        want_hdr = tuple('a' if f == 'b' else f for f in want_hdr)
     if not got:
         return 'no header row delivered', None
     if tuple(got[0]) != want_hdr:
@@ -90,6 +100,13 @@ def run_merge(case, prof, variant, occ=0):
         left = list(etl.sort(left, lay['lkey']))
         right = list(etl.sort(right, lay['rkey']))
         kw['presorted'] = True
+    if variant.get('sharednames'):
+        right = [['a' if f == 'b' else f for f in right[0]]] + right[1:]
+    if variant.get('inputs') == 'revsorted' and all(len(r) == len(left[0]) for r in left[1:]) and all(len(r) == len(right[0]) for r in right[1:]):
+        # (rectangular inputs only: sorting raw short rows would reorder rows whose keys coincide only once padded)
+        # the inputs are themselves views: sort views in DESCENDING key order (the join has to sort for itself)
+        lay = LAYOUT[case['lay']]
+        left, right = etl.sort(left, lay['lkey'], reverse=True), etl.sort(right, lay['rkey'], reverse=True)
     fn = getattr(etl, MERGE_FN[case['op']])
     v = fn(left, right, **kw)
     return [tuple(r) for r in v]
